@@ -106,6 +106,16 @@ func sameStrs(a, b []string) bool {
 	return true
 }
 
+// forceInit makes node n use (and thereby initialise) its running event filter now: one event query over the
+// retained range (a query that starts below the retention floor is rejected by RequireRetained BEFORE the filter is
+// touched, which would leave the initialisation - and the consumption of a persisted snapshot - to the next operation).
+func forceInit(n *chain.Node, r db.KeyValueReader, lo uint64) {
+	if fl, err := pruner.OldestRetainedBlock(r); err == nil && fl > lo {
+		lo = fl
+	}
+	_, _ = queryEvents(n, 1, true, lo)
+}
+
 // eventsOK: every universe query of node n equals the naive scan of the disk r.
 func eventsOK(n *chain.Node, r db.KeyValueReader, lo uint64) (bool, string) {
 	if fl, err := pruner.OldestRetainedBlock(r); err == nil && fl > lo {
